@@ -35,6 +35,10 @@ func c02(c *Ctx) {
 	c16windowAs(c, "C02.R8")
 	c02windowScale(c)
 	c02siblings(c)
+	{
+		bad, sites := c.instanceStateFresh(loadPkg, "adaptiveShedder")
+		c.R.Check(len(bad) == 0 && sites >= 4, "C02.R11", loadPkg+".adaptiveShedder#own-state", "the overload timestamp, the dropped-recently flag and the two windows of a shedder are made for that shedder (no package-level variable behind them): another shedder's overloads do not keep this one's cool-off alive", "-", fmt.Sprintf("%d state fields initialised; %s", sites, strings.Join(bad, "; ")), bad, sites)
+	}
 }
 
 func loadCall(name string) px.Pred {
